@@ -242,102 +242,143 @@ def fw_cases():
             for ep in ("initiate", "resource"):
                 for m in ALL_METHODS:
                     out.append({"fw": fw, "configured": conf, "ep": ep, "method": m})
+        # the configuration given as a tuple (both integrations document "list or tuple")
+        for conf in (["RSA-SHA1"], ["PLAINTEXT", "RSA-SHA1"]):
+            for ep in ("initiate", "resource"):
+                for m in ALL_METHODS:
+                    out.append({"fw": fw, "configured": conf, "as_tuple": True, "ep": ep, "method": m})
+        # replays against the integrations' own nonce stores (a cache that honours its timeouts): the same signed request twice
+        for ep in ("initiate", "resource"):
+            for ahead in (0, 200, -200, 90000):
+                for wait in (1, 350, 3000, 86500):
+                    out.append({"fw": fw, "configured": None, "ep": ep, "method": "HMAC-SHA1", "replay": {"ahead": ahead, "wait": wait}})
     return out
 
 
 _FW = {}
 
 
-def _fw_sign(c, url, token=None, token_secret=None):
+def _fw_sign(c, url, token=None, token_secret=None, ts=None):
     import joseref as R
     _FW["n"] = _FW.get("n", 0) + 1
     nonce = f"fw-{_FW['n']}"
     ca_mod.generate_nonce = lambda: nonce
-    ca_mod.generate_timestamp = lambda: str(int(CLOCK.now))
+    ca_mod.generate_timestamp = lambda: str(int(CLOCK.now if ts is None else ts))
     auth = ClientAuth("ca", client_secret=SECRETS["ca"], token=token, token_secret=token_secret, redirect_uri="oob" if token is None else None,
                       signature_method=c["method"], rsa_key=R.pem_private(R.keys()["rsa1"]) if c["method"] == "RSA-SHA1" else None)
     _, headers, _ = auth.prepare("POST", url, {}, "")
     return headers["Authorization"]
 
 
-def fw_impl(c):
+class TTLCache:
+    """a cache that honours its timeouts on the harness clock (what werkzeug / flask-caching back ends do)"""
+    def __init__(self): self.d = {}
+    def _live(self, k):
+        e = self.d.get(k)
+        if e is not None and e[1] is not None and e[1] <= CLOCK():
+            del self.d[k]
+            e = None
+        return e
+    def get(self, k):
+        e = self._live(k)
+        return None if e is None else e[0]
+    def set(self, k, v, timeout=None): self.d[k] = (v, None if not timeout else CLOCK() + timeout)
+    def delete(self, k): self.d.pop(k, None)
+    def has(self, k): return self._live(k) is not None
+
+
+def fw_build(c):
+    """one provider built on the integration; returns send(ep, authorization header) -> (status, body text)"""
     import joseref as R
-    CLOCK.now = NOW0
     client = mem1.Client1("ca", SECRETS["ca"], "https://a/cb", R.pem_public(R.keys()["rsa1"]))
     tok = mem1.TokenCred("tok-fw", "sec-fw", "ca", 1)
-    url = f"https://sp.example/{c['ep']}"
-    hdr = _fw_sign(c, url) if c["ep"] == "initiate" else _fw_sign(c, url, "tok-fw", "sec-fw")
-    from urllib.parse import parse_qsl
+    conf = c["configured"]
+    if conf is not None:
+        conf = tuple(conf) if c.get("as_tuple") else list(conf)
+    if c["fw"] == "flask":
+        from flask import Flask, jsonify
+        from authlib.integrations.flask_oauth1 import AuthorizationServer, ResourceProtector
+        from authlib.integrations.flask_oauth1.cache import register_nonce_hooks, register_temporary_credential_hooks, create_exists_nonce_func
+        cache = TTLCache()
+        app = Flask("c12-fw")
+        app.config["PROPAGATE_EXCEPTIONS"] = True
+        if conf is not None:
+            app.config["OAUTH1_SUPPORTED_SIGNATURE_METHODS"] = conf
+        server = AuthorizationServer(app, query_client=lambda cid: client if cid == "ca" else None)
+        register_nonce_hooks(server, cache)
+        register_temporary_credential_hooks(server, cache)
+        require_oauth = ResourceProtector(app, query_client=lambda cid: client if cid == "ca" else None,
+                                          query_token=lambda cid, t: tok if (cid, t) == ("ca", "tok-fw") else None, exists_nonce=create_exists_nonce_func(cache))
+        app.add_url_rule("/initiate", "initiate", lambda: server.create_temporary_credentials_response(), methods=["POST"])
+        app.add_url_rule("/resource", "resource", require_oauth()(lambda: jsonify(ok=True)), methods=["POST"])
+
+        def send(ep, hdr):
+            resp = app.test_client().open("/" + ep, method="POST", headers={"Authorization": hdr}, base_url="https://sp.example")
+            return resp.status_code, resp.get_data(as_text=True)
+        return send
+    from django.conf import settings
+    if not settings.configured:
+        settings.configure(DEBUG=False, SECRET_KEY="x", ALLOWED_HOSTS=["*"])
+    import django
+    django.setup()
+    from django.core.cache import cache as dcache
+    from django.http import JsonResponse
+    from django.test import RequestFactory
+    from authlib.integrations.django_oauth1 import CacheAuthorizationServer, ResourceProtector
+    dcache.clear()
+
+    def model(find):
+        class DoesNotExist(Exception):
+            pass
+
+        class Objects:
+            @staticmethod
+            def get(**kw):
+                r = find(kw)
+                if r is None:
+                    raise DoesNotExist()
+                return r
+        return type("M", (), {"DoesNotExist": DoesNotExist, "objects": Objects})
+    CM = model(lambda kw: client if kw.get("client_id") == "ca" else None)
+    TM = model(lambda kw: tok if (kw.get("client_id"), kw.get("oauth_token")) == ("ca", "tok-fw") else None)
+    settings.AUTHLIB_OAUTH1_PROVIDER = {} if conf is None else {"signature_methods": conf}
     try:
-        if c["fw"] == "flask":
-            from flask import Flask, jsonify
-            from authlib.integrations.flask_oauth1 import AuthorizationServer, ResourceProtector
-            from authlib.integrations.flask_oauth1.cache import register_nonce_hooks, register_temporary_credential_hooks, create_exists_nonce_func
+        srv, rp = CacheAuthorizationServer(CM, TM), ResourceProtector(CM, TM)
+    finally:
+        del settings.AUTHLIB_OAUTH1_PROVIDER
 
-            class Cache:
-                def __init__(self): self.d = {}
-                def get(self, k): return self.d.get(k)
-                def set(self, k, v, timeout=None): self.d[k] = v
-                def delete(self, k): self.d.pop(k, None)
-                def has(self, k): return k in self.d
-            cache = Cache()
-            app = Flask("c12-fw")
-            app.config["PROPAGATE_EXCEPTIONS"] = True
-            if c["configured"] is not None:
-                app.config["OAUTH1_SUPPORTED_SIGNATURE_METHODS"] = list(c["configured"])
-            server = AuthorizationServer(app, query_client=lambda cid: client if cid == "ca" else None)
-            register_nonce_hooks(server, cache)
-            register_temporary_credential_hooks(server, cache)
-            require_oauth = ResourceProtector(app, query_client=lambda cid: client if cid == "ca" else None,
-                                              query_token=lambda cid, t: tok if (cid, t) == ("ca", "tok-fw") else None, exists_nonce=create_exists_nonce_func(cache))
-            app.add_url_rule("/initiate", "initiate", lambda: server.create_temporary_credentials_response(), methods=["POST"])
-            app.add_url_rule("/resource", "resource", require_oauth()(lambda: jsonify(ok=True)), methods=["POST"])
-            resp = app.test_client().open("/" + c["ep"], method="POST", headers={"Authorization": hdr}, base_url="https://sp.example")
-            status, text = resp.status_code, resp.get_data(as_text=True)
-        else:
-            from django.conf import settings
-            if not settings.configured:
-                settings.configure(DEBUG=False, SECRET_KEY="x", ALLOWED_HOSTS=["*"])
-            import django
-            django.setup()
-            from django.core.cache import cache as dcache
-            from django.http import JsonResponse
-            from django.test import RequestFactory
-            from authlib.integrations.django_oauth1 import CacheAuthorizationServer, ResourceProtector
-            dcache.clear()
-            settings.AUTHLIB_OAUTH1_PROVIDER = {} if c["configured"] is None else {"signature_methods": list(c["configured"])}
+    def send(ep, hdr):
+        req = RequestFactory().post("/" + ep, secure=True, HTTP_HOST="sp.example", HTTP_AUTHORIZATION=hdr)
+        resp = srv.create_temporary_credentials_response(req) if ep == "initiate" else rp()(lambda request: JsonResponse({"ok": True}))(req)
+        return resp.status_code, resp.content.decode()
+    return send
 
-            def model(find):
-                class DoesNotExist(Exception):
-                    pass
 
-                class Objects:
-                    @staticmethod
-                    def get(**kw):
-                        r = find(kw)
-                        if r is None:
-                            raise DoesNotExist()
-                        return r
-                return type("M", (), {"DoesNotExist": DoesNotExist, "objects": Objects})
-            CM = model(lambda kw: client if kw.get("client_id") == "ca" else None)
-            TM = model(lambda kw: tok if (kw.get("client_id"), kw.get("oauth_token")) == ("ca", "tok-fw") else None)
-            try:
-                req = RequestFactory().post("/" + c["ep"], secure=True, HTTP_HOST="sp.example", HTTP_AUTHORIZATION=hdr)
-                if c["ep"] == "initiate":
-                    resp = CacheAuthorizationServer(CM, TM).create_temporary_credentials_response(req)
-                else:
-                    resp = ResourceProtector(CM, TM)()(lambda request: JsonResponse({"ok": True}))(req)
-            finally:
-                del settings.AUTHLIB_OAUTH1_PROVIDER
-            status, text = resp.status_code, resp.content.decode()
-    except Exception as e:
-        return {"raised": f"{type(e).__name__}: {str(e)[:100]}"}
-    body = {}
+def _fw_body(status, text):
+    from urllib.parse import parse_qsl
     try:
         body = json.loads(text)
     except Exception:
         body = dict(parse_qsl(text))
     return {"status": status, "error": body.get("error"), "issued": "oauth_token" in body}
+
+
+def fw_impl(c):
+    CLOCK.now = NOW0
+    url = f"https://sp.example/{c['ep']}"
+    try:
+        send = fw_build(c)
+        rep = c.get("replay")
+        ts = None if not rep else NOW0 + rep["ahead"]
+        hdr = _fw_sign(c, url, ts=ts) if c["ep"] == "initiate" else _fw_sign(c, url, "tok-fw", "sec-fw", ts=ts)
+        first = _fw_body(*send(c["ep"], hdr))
+        if not rep:
+            return first
+        CLOCK.now += rep["wait"]
+        second = _fw_body(*send(c["ep"], hdr))
+        return {"first": first, "second": second}
+    except Exception as e:
+        return {"raised": f"{type(e).__name__}: {str(e)[:100]}"}
 
 
 def impl(c):
@@ -372,6 +413,15 @@ def oracle(c, out):
         where = f"{c['fw']} {'authorization server' if c['ep'] == 'initiate' else 'resource protector'} configured with signature methods {c['configured']}"
         if "raised" in out:
             bad(f"{where}: request raised {out['raised']}", kind="crash", op=c["ep"], exc=out["raised"].split(":")[0])
+        elif c.get("replay"):
+            rep = c["replay"]
+            old = rep["ahead"] < -300
+            if (out["first"]["status"] == 200) == old:
+                bad(f"{where}: request with a timestamp {rep['ahead']} s from the server clock answered {out['first']}", kind="timestamp-window", fw=c["fw"])
+            if out["second"]["status"] == 200:
+                bad(f"{c['fw']} {'authorization server' if c['ep'] == 'initiate' else 'resource protector'} with the integration's own nonce store: the same signed request "
+                    f"(timestamp {rep['ahead']} s ahead of the server clock) was accepted again {rep['wait']} s later", kind="replay-accepted", fw=c["fw"],
+                    horizon="beyond-nonce-memory" if rep["ahead"] - rep["wait"] > -300 and rep["wait"] > 86400 else "within-nonce-memory")
         elif c["method"] in conf and out["status"] != 200:
             bad(f"{where}: a correctly {c['method']}-signed request is refused ({out['status']} {out['error']})", kind="configured-method-refused", fw=c["fw"])
         elif c["method"] not in conf and (out["status"] == 200 or out["error"] != "unsupported_signature_method"):
@@ -432,13 +482,15 @@ def oracle(c, out):
 
 def classify(c, out):
     if "fw" in c:
+        if c.get("replay"):
+            return f"fwreplay/{c['fw']}/{c['ep']}/" + ("raised" if "raised" in out else f"{out['first']['status']}-{out['second']['status']}")
         return f"fwconfig/{c['fw']}/{c['ep']}/" + ("accepted" if out.get("status") == 200 else str(out.get("error") or out.get("raised")))
     return "history/" + str(len(c["ops"]))
 
 
 def nontrivial(c, out):
     if "fw" in c:
-        return [c["fw"], c["configured"], c["ep"], c["method"]]
+        return [c["fw"], c["configured"], c.get("as_tuple"), c["ep"], c["method"], c.get("replay")]
     return c["ops"]
 
 
